@@ -2,13 +2,19 @@
 """Shard runner for property C19 (derived wire encodings match their declared layout).
 
   run.py --seed S --shard i/n --tier quick|thorough --out FILE [--only-case K]
-         [--wire-path /repo/ethercrab-wire] [--count N] [--values N] [--buffers N] [--keep]
+         [--wire-path /repo/ethercrab-wire] [--target-dir DIR] [--count N] [--values N] [--buffers N] [--keep]
 
 Generates the definitions of shard i (gen.py), builds them against the CURRENT working tree of
 the repo (path dependency) with `cargo build --offline --release` into the shared target directory
-/verif/target/wiregen/target, runs the program and writes FILE (one JSON object, see README in
-the task: property, seed, shard, shards, tier, evaluations, distinct, counters, samples,
-observations, violations, violation_counts, inconclusive).
+/verif/target/wiregen/target, runs the program and writes FILE: one JSON object with exactly the
+keys property, seed, shard, shards, tier, evaluations, distinct (u64 hashes of the distinct
+non-trivial definitions: >= 2 fields or a sub-byte field), counters, samples, observations,
+violations ([{signature "C19:<rule>:<construct>", detail, replay {case, seed, shard, ...}}], at
+most 5 listed per signature), violation_counts (signature -> failing checks), inconclusive.
+
+Replay: `--only-case K` (K from a violation's replay.case; with the same --seed/--shard/--tier)
+rebuilds only definition K plus what it refers to and re-runs all its evaluations; K >= 100000
+selects one of the static in-crate sections.
 
 Build strategy: cargo serialises on the lock of a shared target directory, so the first shard that
 gets the lock builds a workspace holding the crates of *all* n shards of this (seed, tier) in one
@@ -283,7 +289,14 @@ def main():
     ap.add_argument("--values", type=int, default=None)
     ap.add_argument("--buffers", type=int, default=None)
     ap.add_argument("--keep", action="store_true", help="keep the generated crate directory (single build only)")
+    ap.add_argument("--target-dir", default=None,
+                    help="cargo target directory and scratch area (default /verif/target/wiregen/target resp. /verif/target/wiregen); "
+                         "the mutation self-test points this at its scratch directory")
     a = ap.parse_args()
+    if a.target_dir:
+        global BASE, TARGET
+        BASE = os.path.abspath(a.target_dir)
+        TARGET = os.path.join(BASE, "target")
     a.shard_i, a.shard_n = (int(x) for x in a.shard.split("/"))
     assert 0 <= a.shard_i < a.shard_n
     plan = Plan(a)
@@ -382,7 +395,7 @@ def main():
                 detail += " | definition: " + by_idx[v["case"]].text().replace("\n", " ")[:700]
             violations.append({"signature": sig, "detail": detail,
                                "replay": {"case": v["case"], "seed": plan.seed, "shard": plan.shard, "shards": plan.shards,
-                                          "tier": plan.tier, "sub": v["sub"], "failing_evaluations": v["count"]}})
+                                          "tier": plan.tier, "sub": v["sub"], "failing_checks": v["count"]}})
         for k, v in result.get("observations", {}).items():
             obs.setdefault(k, []).extend(v)
 
